@@ -35,7 +35,7 @@ from ..gen import Gen, ground_actions
 CFG = "SPECIFICATION Spec\nINVARIANT Judge\n"
 CFG_BISIM = "SPECIFICATION Spec\nINVARIANT Equivalent\n"
 NPROC = 8
-REPO = os.environ.get("VERIF_REPO", "/repo")
+REPO = "/repo"  # the shipped .pddl files are inputs (read from the pinned tree even when VERIF_REPO points at a mutant)
 
 
 # ----------------------------------------------------------------------------------------
